@@ -711,7 +711,8 @@ def build_unit(name, repo, template_path, overlay_path, twin_false=False, varian
             parts.append(render(fo.toks))
             u.functions.append(dict(qual=fo.qual, file=ch[2], impl=ch[3], start=start, end=line,
                                     src_line=fo.src_line, tags=(fo.spec.tags if fo.spec else []),
-                                    has_spec=fo.spec is not None, loops=fo.loops))
+                                    has_spec=fo.spec is not None, loops=fo.loops,
+                                    idents=[t.text for t in fo.toks if t.origin == 'orig' and t.kind == 'ident']))
             for d in fo.dropped:
                 if d[0] != 'T3swap':
                     u.dropped.append((fo.qual, d[0], d[1]))
